@@ -1,7 +1,7 @@
 (* C02 Election safety, node-local half: one durable vote per term, votes only for up-to-date
    logs, leadership only on a joint-quorum tally.  Proofs in Proofs/LocalProofs.v, RaftMono.v. *)
 From Coq Require Import List NArith.
-From RaftV Require Import Base Types Quorum Progress Tracker Storage Log Raft RawNode QuorumProofs RaftMono RaftRouting NodeProps PreVoteProofs LocalProofs FlowProofs LogProofs ConfProofs.
+From RaftV Require Import Base Types Quorum Progress Tracker Storage Log Raft RawNode QuorumProofs Election RaftMono RaftRouting NodeProps PreVoteProofs LocalProofs FlowProofs LogProofs ConfProofs.
 Import ListNotations.
 Open Scope N_scope.
 
@@ -47,3 +47,29 @@ Theorem C02_restart : forall st c d rn,
 Proof. exact new_rawnode_hs. Qed.
 Print Assumptions C02_restart.
 
+
+(* ---------- protocol level (Spec/Election.v) ---------- *)
+
+(* Election Safety: in any history of grants in which every voter votes at most once per term
+   (C02_one_vote_per_term, across incarnations by C02_restart), two nodes that each hold
+   grants of term t from a majority of a common voter set are the same node. *)
+Theorem C02_election_safety : forall gs vs t c1 c2,
+  votes_unique gs -> has_majority gs vs t c1 -> has_majority gs vs t c2 -> c1 = c2.
+Proof. exact election_safety. Qed.
+Print Assumptions C02_election_safety.
+
+(* joint configurations: winners whose configurations share a non-empty voter set coincide *)
+Theorem C02_election_safety_joint : forall gs a0 a1 b0 b1 t c1 c2 shared,
+  votes_unique gs -> shared <> [] ->
+  (shared = a0 \/ shared = a1) -> (shared = b0 \/ shared = b1) ->
+  wins gs a0 a1 t c1 -> wins gs b0 b1 t c2 -> c1 = c2.
+Proof. exact election_safety_joint. Qed.
+Print Assumptions C02_election_safety_joint.
+
+(* the tally of the code (VoteWon of joint_vote, C12) over recorded votes that stem from
+   grants is a win in that sense: this links C02_leader_needs_quorum to the protocol level *)
+Theorem C02_vote_won_wins : forall gs c0 c1 votes t c,
+  (forall v, alookup votes v = Some true -> granted gs v t c = true) ->
+  joint_vote c0 c1 votes = VoteWon -> wins gs c0 c1 t c.
+Proof. exact vote_won_wins. Qed.
+Print Assumptions C02_vote_won_wins.
